@@ -22,8 +22,8 @@ if os.path.exists(naf):
 
 checks, na = [], []
 for pid in ids:
-    if pid in plugins and pid not in na_extra:
-        p = check.load_plugin(pid)
+    p = check.load_plugin(pid) if pid in plugins else None
+    if p is not None and getattr(p, "ready", False) and pid not in na_extra:
         m = getattr(p, "manifest", {})
         checks.append({
             "property_id": pid,
